@@ -27,6 +27,7 @@ TEXTS = {
     'comma': ('ACME, Inc.', 'ACME, Inc.'),
     'quote': ('JOE "THE" DINER', 'JOE "THE" DINER'),
     'nl': ('LINE ONE\nLINE TWO', 'LINE ONE\nLINE TWO'),
+    'nlend': ('TOTAL DUE\n', 'TOTAL DUE'),        # a quoted cell that ENDS with a line break (multi-line column titles do)
     'uni': ('Café Zürich №5 ✓', 'Café Zürich №5 ✓'),
     'semi': ('X;Y|Z', 'X;Y|Z'),
     'empty': ('', ''),
